@@ -316,4 +316,64 @@ theorem exprEnergy_eq_polyValue (e : Expr) (row : Nat → Rat) (hlen : e.qb.lin.
     simp
   · rw [if_neg h0]
 
+
+/-! ### the `labels=` argument -/
+
+theorem selectGo_known (cs : List CEval) : ∀ (ls : List Label), (∀ l ∈ ls, ∃ c ∈ cs, c.label = l) →
+    (selectGo cs ls).2 = false ∧ (selectGo cs ls).1.map (·.label) = ls ∧ ∀ c ∈ (selectGo cs ls).1, c ∈ cs := by
+  intro ls
+  induction ls with
+  | nil => intro _; exact ⟨rfl, rfl, by intro c hc; cases hc⟩
+  | cons l t ih =>
+    intro h
+    obtain ⟨i1, i2, i3⟩ := ih (fun l' hl' => h l' (List.mem_cons_of_mem _ hl'))
+    obtain ⟨c0, hc0, hl0⟩ := h l List.mem_cons_self
+    unfold selectGo
+    cases hf : cs.find? (fun c => c.label = l) with
+    | none =>
+      have := List.find?_eq_none.mp hf c0 hc0
+      simp [hl0] at this
+    | some c =>
+      simp only []
+      have hcl : c.label = l := by have := List.find?_some hf; simpa using this
+      refine ⟨i1, by rw [List.map_cons, i2, hcl], ?_⟩
+      intro c' hc'
+      rcases List.mem_cons.mp hc' with rfl | h'
+      · exact List.mem_of_find?_eq_some hf
+      · exact i3 c' h'
+
+theorem selectGo_unknown (cs : List CEval) : ∀ (ls : List Label), (∃ l ∈ ls, ∀ c ∈ cs, c.label ≠ l) → (selectGo cs ls).2 = true := by
+  intro ls
+  induction ls with
+  | nil => intro ⟨l, hl, _⟩; cases hl
+  | cons l t ih =>
+    intro ⟨l', hl', hn⟩
+    unfold selectGo
+    cases hf : cs.find? (fun c => c.label = l) with
+    | none => rfl
+    | some c =>
+      simp only []
+      rcases List.mem_cons.mp hl' with rfl | h'
+      · have hcl : c.label = l' := by have := List.find?_some hf; simpa using this
+        exact absurd hcl (hn c (List.mem_of_find?_eq_some hf))
+      · exact ih ⟨l', h', hn⟩
+
+/-- with distinct constraint labels, the constraint found for a label is *the* constraint with that label -/
+theorem selectGo_unique (cs : List CEval) (hnd : (cs.map (·.label)).Nodup) (ls : List Label) (c : CEval)
+    (hc : c ∈ (selectGo cs ls).1) (c' : CEval) (hc' : c' ∈ cs) (h : c'.label = c.label) : c' = c := by
+  have hmem : c ∈ cs := by
+    induction ls with
+    | nil => cases hc
+    | cons l t ih =>
+      unfold selectGo at hc
+      cases hf : cs.find? (fun c => c.label = l) with
+      | none => rw [hf] at hc; cases hc
+      | some c0 =>
+        rw [hf] at hc
+        simp only [] at hc
+        rcases List.mem_cons.mp hc with rfl | h'
+        · exact List.mem_of_find?_eq_some hf
+        · exact ih h'
+  exact eq_of_nodup_map (·.label) cs hnd c' hc' c hmem h
+
 end Feas
